@@ -1,0 +1,27 @@
+//go:build verif
+
+package keeper
+
+// Contracts for the deductive checker in /verif (comment-only; compiled only with -tags verif).
+// C19, iteration helpers: GetAllDenoms enumerates the liquid-denom store for ExportGenesis; verified against the KV-iterator
+// model of /verif/specs/c19it instead of being assumed.
+
+/*@
+alias LDenom github.com/haqq-network/haqq/x/liquidvesting/types.Denom
+// protobuf decoding of a stored denom record: a function of the bytes (codec assumed)
+uf ld_decode(b Bytes) LDenom
+func (github.com/cosmos/cosmos-sdk/codec.BinaryCodec).MustUnmarshal
+    params cdc, bz, ptr
+    requires denom: typeis(ptr, *LDenom)
+    modifies *cast(ptr, *LDenom)
+    ensures *cast(ptr, *LDenom) == ld_decode(bz)
+
+// the result is the decoded enumeration of the denom store, entry by entry and in store order: nothing dropped, nothing added
+func (Keeper).GetAllDenoms
+    let it = ret(KVStorePrefixIterator, 1, 0)
+    let seq = iter_seq(it)
+    loop 1 invariant pos: 0 <= iter_pos[it] && iter_pos[it] <= kv_len(seq) && len(list) == iter_pos[it]
+    loop 1 invariant elems: forall i int :: 0 <= i && i < len(list) ==> list[i] == ld_decode(kv_val(seq, i))
+    ensures all: len(result) == kv_len(seq) && (forall i int :: 0 <= i && i < len(result) ==> result[i] == ld_decode(kv_val(seq, i)))
+    allow frame
+@*/
